@@ -6,6 +6,7 @@ import (
 	"go/token"
 	"go/types"
 	"os"
+	"strconv"
 	"strings"
 
 	"golang.org/x/tools/go/packages"
@@ -30,6 +31,9 @@ func checkC10(c *Ctx, r *Report) {
 	checkCode93Checksum(c, r)
 	checkExtensions(c, r)
 	checkCode39Constructors(c, r)
+	checkCode39CheckChar(c, r)
+	checkExtensionHistory(c, r)
+	checkCode128ReaderTotal(c, r) // the mod-103 test on scripted symbols: valid ones are read whatever their check value, off-by-one ones refused (also C06)
 	checkUPCDigitLoops(c, r)
 	r.Note("not decided: that every single substitution is caught (a property of the code's minimum distance over all symbols); zero-suppression inverse beyond the expansion table")
 }
@@ -1801,5 +1805,322 @@ func firstConjunct(e ast.Expr) ast.Expr {
 			return ast.Unparen(e)
 		}
 		e = be.X
+	}
+}
+
+// S-C39CHECK: the Code 39 row decoder configured for a check character
+type c39Stop struct{ text string }
+
+func checkCode39CheckChar(c *Ctx, r *Report) {
+	r.Rule("S-C39CHECK", "code39Reader.DecodeRow with check-character verification switched on, folded from source with the pattern matcher replaced by a script of characters (start pattern found, then the scripted characters, then the stop asterisk; the quiet-zone test passes): for no character, for every single character, for every pair and for a grid of triples over the 43-character alphabet the reader returns the text without its last character exactly when that last character is the mod-43 check character of the rest and at least one text character remains; otherwise it returns an error - never the check character as text, never an unverified symbol; with verification off the characters are returned as they are", 2)
+	fd, p := c.funcDeclOf("oned", "code39Reader.DecodeRow")
+	key := "oned.code39Reader.DecodeRow scripted characters"
+	xs, _ := intTable(c, "oned", "code39CharacterEncodings")
+	alpha, okA := strConst(c, "oned", "code39AlphabetString")
+	ast39, okS := constValIn(c, "oned", "code39AsteriskEncoding")
+	if fd == nil || xs == nil || !okA || !okS || len(alpha) != 43 || len(xs) < 43 {
+		r.AnchorLost("S-C39CHECK", key, "code39Reader.DecodeRow / Code 39 tables not found")
+		return
+	}
+	run := func(chars []int, check bool) (string, string) {
+		k := 0
+		rh := &rpf{unroll: 100000, maxSteps: 200000, env: map[types.Object]*Val{}}
+		counters := &Val{K: VList, Local: true}
+		for i := 0; i < 9; i++ {
+			counters.L = append(counters.L, vint(0))
+		}
+		rh.env[recvObj(p, fd)] = &Val{K: VStruct, Ptr: true, Local: true, Fields: map[string]*Val{
+			"usingCheckDigit": vbool(check), "extendedMode": vbool(false), "decodeRowResult": {K: VList, Local: true}, "counters": counters}}
+		rh.callHook = func(rr *rpf, call *ast.CallExpr, callee types.Object) (*Val, bool) {
+			fn, ok := callee.(*types.Func)
+			if !ok {
+				return nil, false
+			}
+			switch fn.Name() {
+			case "GetNextSet":
+				if v := rr.expr(call.Args[0]); v.K == VInt {
+					return vint(v.I + 20), true // white space after every character, and after the stop pattern
+				}
+			case "GetSize":
+				return vint(100000), true
+			case "RecordPattern":
+				if cnt := rr.expr(call.Args[2]); cnt.K == VList {
+					for i := range cnt.L {
+						cnt.L[i] = vint(1)
+					}
+				}
+				return &Val{K: VNil}, true
+			case "code39ToNarrowWidePattern":
+				if k > len(chars) {
+					rpfFail("the reader asks for more characters than the script holds")
+				}
+				k++
+				if k-1 == len(chars) {
+					return vint(ast39), true
+				}
+				return vint(xs[chars[k-1]]), true
+			case "NewResultPoint":
+				return &Val{K: VNil}, true
+			case "NewResult":
+				v := rr.expr(call.Args[0])
+				if v.K != VStr {
+					rpfFail("the result text is not a constant string")
+				}
+				panic(c39Stop{v.S})
+			}
+			return errCtorHook(rr, call, callee)
+		}
+		rh.multiHook = func(call *ast.CallExpr, callee types.Object) ([]*Val, bool) {
+			if isFuncNamed(callee, "oned", "code39FindAsteriskPattern") {
+				return []*Val{vint(0), vint(13), {K: VNil}}, true
+			}
+			return nil, false
+		}
+		got, status := "", ""
+		func() {
+			defer func() {
+				if x := recover(); x != nil {
+					if s, ok := x.(c39Stop); ok {
+						got, status = s.text, "result"
+						return
+					}
+					panic(x)
+				}
+			}()
+			_, err := c.rpfCall(fd, p, []*Val{vint(0), {K: VNil}, {K: VNil}}, rh)
+			if err != nil {
+				status = err.Error()
+				return
+			}
+			status = "error"
+		}()
+		return got, status
+	}
+	text := func(chars []int) string {
+		b := make([]byte, len(chars))
+		for i, x := range chars {
+			b[i] = alpha[x]
+		}
+		return string(b)
+	}
+	for _, check := range []bool{true, false} {
+		okey := key + fmt.Sprintf(", verification %v", check)
+		r.Analysed(okey)
+		bad := ""
+		folds, results := 0, 0
+		try := func(chars []int) {
+			if bad != "" {
+				return
+			}
+			got, status := run(chars, check)
+			folds++
+			want, wantOK := text(chars), len(chars) > 0
+			if check {
+				wantOK = false
+				if len(chars) >= 2 {
+					sum := 0
+					for _, x := range chars[:len(chars)-1] {
+						sum += x
+					}
+					if sum%43 == chars[len(chars)-1] {
+						wantOK, want = true, text(chars[:len(chars)-1])
+					}
+				}
+			}
+			switch {
+			case status == "result":
+				results++
+				if !wantOK {
+					bad = fmt.Sprintf("the characters %q between the asterisks are returned as %q: the last one is not the check character of the rest (or nothing remains), an error is due", text(chars), got)
+				} else if got != want {
+					bad = fmt.Sprintf("the characters %q between the asterisks are returned as %q, expected %q", text(chars), got, want)
+				}
+			case status == "error":
+				if wantOK {
+					bad = fmt.Sprintf("the characters %q between the asterisks are refused; expected the text %q", text(chars), want)
+				}
+			case strings.Contains(status, "out of range"):
+				bad = fmt.Sprintf("the characters %q between the asterisks: %s - a panic instead of a result or an error", text(chars), status)
+			default:
+				bad = fmt.Sprintf("?the characters %q: %s", text(chars), status)
+			}
+		}
+		try(nil)
+		for a := 0; a < 43; a++ {
+			try([]int{a})
+		}
+		for a := 0; a < 43; a++ {
+			for b := 0; b < 43; b++ {
+				if check || (a+b)%5 == 0 {
+					try([]int{a, b})
+				}
+			}
+		}
+		if check {
+			for _, a := range []int{0, 9, 10, 35, 42} {
+				for _, b := range []int{0, 1, 33, 36, 42} {
+					for x := 0; x < 43; x++ {
+						try([]int{a, b, x})
+					}
+				}
+			}
+		}
+		r.Extra(fmt.Sprintf("S-C39CHECK scripts folded / giving a result (verification %v)", check), fmt.Sprintf("%d/%d", folds, results))
+		if bad == "" && results < 40 {
+			bad = fmt.Sprintf("?only %d of %d scripts reach a result: the script no longer drives the decoder", results, folds)
+		}
+		reportFold(r, c, "S-C39CHECK", okey, fd.Pos(), bad)
+	}
+}
+
+// S-EXTHIST: the add-on decoders on one object, after a rejected add-on
+func checkExtensionHistory(c *Ctx, r *Report) {
+	r.Rule("S-EXTHIST", "UPCEANExtension5Support.decodeRow and UPCEANExtension2Support.decodeRow, folded with the digit matcher scripted, on one object built by folding its constructor: an add-on whose parity does not carry its check value is refused, and the well-formed add-on presented next is read with exactly its own digits - nothing of the rejected one stays in the reused buffer; a fresh object reads the same add-on the same way", 2)
+	for _, t := range []struct {
+		typ    string
+		n      int
+		digits [2][]int64
+	}{{"UPCEANExtension5Support", 5, [2][]int64{{5, 4, 3, 2, 1}, {1, 2, 3, 4, 5}}}, {"UPCEANExtension2Support", 2, [2][]int64{{5, 4}, {1, 2}}}} {
+		key := "oned." + t.typ + ".decodeRow/history"
+		fd, p := c.funcDeclOf("oned", t.typ+".decodeRow")
+		cfd, cp := c.funcDeclOf("oned", "New"+t.typ)
+		if fd == nil || cfd == nil {
+			r.AnchorLost("S-EXTHIST", key, "decodeRow / constructor not found")
+			continue
+		}
+		r.Analysed(key)
+		type outcome struct {
+			text string
+			ok   bool
+			err  string
+		}
+		type stop struct{ text string }
+		run := func(obj *Val, digits []int64, parity int) outcome {
+			k := 0
+			h := &rpf{unroll: 1000, maxSteps: 100000, effectCalls: true, env: map[types.Object]*Val{recvObj(p, fd): obj}}
+			h.callHook = func(rr *rpf, call *ast.CallExpr, callee types.Object) (*Val, bool) {
+				if fn, ok := callee.(*types.Func); ok {
+					switch fn.Name() {
+					case "GetSize":
+						return vint(1000), true
+					case "GetNextSet", "GetNextUnset":
+						if v := rr.expr(call.Args[0]); v.K == VInt {
+							return vint(v.I + 1), true
+						}
+					case "NewResultPoint", "parseExtensionString":
+						return &Val{K: VNil}, true
+					case "NewResult":
+						if v := rr.expr(call.Args[0]); v.K == VStr {
+							panic(stop{v.S})
+						}
+						rpfFail("the add-on text is not a constant string")
+					}
+				}
+				return errCtorHook(rr, call, callee)
+			}
+			h.multiHook = func(call *ast.CallExpr, callee types.Object) ([]*Val, bool) {
+				if fn, ok := callee.(*types.Func); ok && fn.Name() == "Atoi" && fn.Pkg() != nil && fn.Pkg().Path() == "strconv" {
+					if s := rpfCurrent.expr(call.Args[0]); s.K == VStr {
+						if n, err := strconv.Atoi(s.S); err == nil {
+							return []*Val{vint(int64(n)), {K: VNil}}, true
+						}
+						return []*Val{vint(0), vstr("error")}, true
+					}
+				}
+				if isFuncNamed(callee, "oned", "upceanReader_decodeDigit") {
+					if k >= len(digits) {
+						rpfFail("more digits are asked for than the add-on has")
+					}
+					d := digits[k]
+					if parity>>(uint(len(digits)-1-k))&1 == 1 {
+						d += 10
+					}
+					k++
+					if cnt := rpfCurrent.expr(call.Args[1]); cnt.K == VList {
+						for i := range cnt.L {
+							cnt.L[i] = vint(2)
+						}
+					}
+					return []*Val{vint(d), {K: VNil}}, true
+				}
+				return nil, false
+			}
+			var out outcome
+			func() {
+				defer func() {
+					if x := recover(); x != nil {
+						if s, ok := x.(stop); ok {
+							out = outcome{text: s.text, ok: true}
+							return
+						}
+						panic(x)
+					}
+				}()
+				res, err := c.rpfCall(fd, p, []*Val{vint(0), {K: VStruct, Ptr: true, Fields: map[string]*Val{}}, {K: VList, L: []*Val{vint(10), vint(13)}}}, h)
+				if err != nil {
+					out = outcome{err: err.Error()}
+					return
+				}
+				_ = res
+			}()
+			return out
+		}
+		build := func() (*Val, string) {
+			res, err := c.rpfCall(cfd, cp, nil, &rpf{unroll: 100})
+			if err != nil || len(res) != 1 || res[0].K != VStruct {
+				return nil, fmt.Sprintf("?the constructor does not fold to an object (%v)", err)
+			}
+			return res[0], ""
+		}
+		bad := ""
+		// the parity pattern under which the second add-on is well formed, found on fresh objects
+		want := func(d []int64) string {
+			s := ""
+			for _, x := range d {
+				s += fmt.Sprint(x)
+			}
+			return s
+		}
+		good, rejected := -1, -1
+		for par := 0; par < 1<<uint(t.n) && bad == ""; par++ {
+			obj, b := build()
+			if b != "" {
+				bad = b
+				break
+			}
+			o := run(obj, t.digits[1], par)
+			if o.err != "" {
+				bad = "?" + o.err
+				break
+			}
+			if o.ok && good < 0 {
+				if o.text != want(t.digits[1]) {
+					bad = fmt.Sprintf("a fresh object reads the add-on %s as %q", want(t.digits[1]), o.text)
+				}
+				good = par
+			}
+		}
+		for par := 0; par < 1<<uint(t.n) && bad == "" && rejected < 0; par++ {
+			obj, _ := build()
+			if o := run(obj, t.digits[0], par); !o.ok && o.err == "" {
+				rejected = par
+			}
+		}
+		if bad == "" && (good < 0 || rejected < 0) {
+			bad = fmt.Sprintf("?no parity pattern under which %s is read (%d) / %s is refused (%d)", want(t.digits[1]), good, want(t.digits[0]), rejected)
+		}
+		if bad == "" {
+			obj, _ := build()
+			if o := run(obj, t.digits[0], rejected); o.ok || o.err != "" {
+				bad = "?the rejected add-on is not rejected on the history object: " + o.err
+			} else if o2 := run(obj, t.digits[1], good); o2.err != "" {
+				bad = "?" + o2.err
+			} else if !o2.ok {
+				bad = fmt.Sprintf("one object: after the add-on %s was refused for its parity, the well-formed add-on %s is refused too - digits of the rejected one are still in the buffer", want(t.digits[0]), want(t.digits[1]))
+			} else if o2.text != want(t.digits[1]) {
+				bad = fmt.Sprintf("one object: after the add-on %s was refused, the add-on %s is read as %q", want(t.digits[0]), want(t.digits[1]), o2.text)
+			}
+		}
+		reportFold(r, c, "S-EXTHIST", key, fd.Pos(), bad)
 	}
 }
